@@ -24,6 +24,9 @@
   waiting-for-secret) returns `notWaitingForSecret`, sends nothing and leaves the whole conversation as
   it was — except that a nil SMP state becomes EXPECT1 (`ensureSmpConv`); with a state that is set
   nothing changes at all (`…_refused_unchanged`): a run in progress is not reset behind the peer's back.
+  `startAuthenticateExpect1_refused`, `startAuthenticate_short_random_keeps_smp` (repaired code; Proofs.Fixes4): a
+  StartAuthenticate refused for lack of randomness (or because the conversation is not encrypted) likewise leaves
+  the SMP component — secret, first-message state, state — of a run in progress untouched (up to `ensureSMP`).
   Not a theorem: computational soundness of the proofs against a cheater who deviates within the
   group (decided only by the `smp` profile's boundary/perturbation inputs), and — KNOWN FINDING —
   OTRv2 accepts degenerate elements 1, p−1, ≥ p (unit tests pin that v2 does not range-check).
@@ -154,5 +157,13 @@ theorem ensureSmpConv_frame : type_of% @Otr.ensureSmpConv_frame := @Otr.ensureSm
 
 /-- a state that is set: `ensureSmpConv` is the identity -/
 theorem ensureSmpConv_of_some : type_of% @Otr.ensureSmpConv_of_some := @Otr.ensureSmpConv_of_some
+
+/-- repaired code: a refused `startAuthenticateExpect1` leaves conversation and log as they were -/
+theorem startAuthenticateExpect1_refused : type_of% @Otr.startAuthenticateExpect1_refused :=
+  @Otr.startAuthenticateExpect1_refused
+
+/-- repaired code, API level: StartAuthenticate refused for lack of randomness keeps the SMP component (up to `ensureSMP`) -/
+theorem startAuthenticate_short_random_keeps_smp : type_of% @Otr.startAuthenticate_short_random_keeps_smp :=
+  @Otr.startAuthenticate_short_random_keeps_smp
 
 end Otr.C12
